@@ -1,11 +1,11 @@
 SPECIFICATION Spec
 CONSTANT MaxThreads = 2
 CONSTANT MaxTasks = 2
-CONSTANT MaxOps = 3
+CONSTANT MaxOps = 4
 CONSTANT MaxSpawn = 3
-CONSTANT FlagUnderMutex = FALSE
-CONSTANT Expiry = FALSE
-CONSTANT FinishedAtomic = TRUE
+CONSTANT FlagUnderMutex = TRUE
+CONSTANT Expiry = TRUE
+CONSTANT FinishedAtomic = FALSE
 CONSTANT AllowSpurious = FALSE
 INVARIANTS TypeOK NoRace
 CONSTRAINT SpawnBound
